@@ -129,6 +129,10 @@ func (n *Namespace) Verify() error {
 }
 
 func (n *Namespace) verifyName() error {
+	// user.verify() trims User.Namespace; keep the namespace name consistent with it,
+	// otherwise a name with surrounding white space is stored but can never be loaded again
+	// ("user's namespace name mismatch" on the next Verify).
+	n.Name = strings.TrimSpace(n.Name)
 	if !n.isNameExists() {
 		return fmt.Errorf("must specify namespace name")
 	}
